@@ -83,7 +83,7 @@ def rank_profiles(draw, n, r_max=6, families=RANK_FAMILIES, entries_max=2500):
 
 @st.composite
 def tt_specs(draw, d_min=2, d_max=6, n_min=1, n_max=5, r_max=6, size_max=4096,
-             families=FAMILIES, rank_families=RANK_FAMILIES, shape=None, entries_max=2500, int_storage=False):
+             families=FAMILIES, rank_families=RANK_FAMILIES, shape=None, entries_max=2500, int_storage=False, int_mixed=False):
     n = list(shape) if shape is not None else draw(shapes(d_min, d_max, n_min, n_max, size_max))
     rfam, r = draw(rank_profiles(n, r_max, rank_families, entries_max))
     fam = draw(st.sampled_from(list(families)))
@@ -107,6 +107,11 @@ def tt_specs(draw, d_min=2, d_max=6, n_min=1, n_max=5, r_max=6, size_max=4096,
         store = draw(st.sampled_from(["float64", "int64", "int32", "mixed", "int64"]))
         if store != "float64":
             spec["store"] = store
+    if int_mixed and fam in ("float", "gauss", "dyadic") and draw(st.integers(0, 3)) == 0:
+        # some cores hold small integers and are kept in integer arrays, their neighbours are ordinary float cores
+        # (what scaling a hand-written integer tensor by a number, or mixing tables with fitted factors, produces)
+        spec["int_at"] = sorted(set(draw(st.lists(st.integers(0, d - 1), min_size=1, max_size=d))))
+        spec["int_dtype"] = draw(st.sampled_from(["int64", "int32"]))
     if fam == "scaled":
         spec["exp"] = [draw(st.integers(-30, 30)) for _ in range(d)]
     if fam in ("rank_deficient", "zero"):
@@ -133,6 +138,8 @@ def build_tt(spec, as_float=False):
     store = spec.get("store")
     if store and not as_float:
         Y = [G.astype(np.int64 if store == "mixed" else store) if (store != "mixed" or k % 2 == 0) else G for k, G in enumerate(Y)]
+    if spec.get("int_at") and not as_float:
+        Y = [G.astype(spec["int_dtype"]) if k in spec["int_at"] else G for k, G in enumerate(Y)]
     lay = spec.get("layout", "C")
     return [relayout(G, lay) for G in Y] if lay != "C" else Y
 
@@ -146,7 +153,7 @@ def _build_tt(spec):
     Y = []
     for k in range(d):
         sh = (r[k], n[k], r[k + 1])
-        if fam == "smallint":
+        if fam == "smallint" or k in spec.get("int_at", ()):
             G = rng.integers(-3, 4, size=sh).astype(float)
         elif fam == "dyadic":
             G = rng.integers(-16, 17, size=sh) / 8.0
